@@ -4,7 +4,7 @@ Host frames: 00 00 FF FF FF LENlo LENhi LCS <D6 code data..> DCS 00 ; answers D7
 Fault script as in chip_pn53x (Fault(at, kind, arg)); additional kind "comm" (arg = 32-bit communication
 status word of InCommRF / TgCommRF).
 """
-from .chip_pn53x import ACK, NAK, FrameTransport, damage
+from .chip_pn53x import ACK, NAK, FrameTransport, damage, cut_body
 
 CMDNAME = {
     0x00: "InSetRF", 0x02: "InSetProtocol", 0x04: "InCommRF", 0x06: "SwitchRF", 0x10: "MaintainFlash",
@@ -107,6 +107,8 @@ class SimRcs380(object):
             return [ACK, b"\x00\x00\xff\xff\xff"]
         if k == "raw":
             return [ACK, bytes(f.arg)]
+        if k == "cutbody":                                  # well-formed frame, payload D7 code data cut to k bytes
+            return [ACK, frame(cut_body(bytes([0xD7, (code + 1) & 255]) + bytes(rsp), f.arg))]
         if k == "status":
             return [ACK, self._frame(code, bytes([f.arg]) + bytes(rsp[1:]))]
         if k == "comm" and f.arg == 0:
